@@ -22,6 +22,7 @@ func c02(r *core.Run) {
 	run(bin, "deep", uint64(r.Pick(40000, 800000)), "")
 	run(bin, "big", uint64(r.Pick(400, 8000)), "")
 	run(bin, "binlen", 8400, "")
+	run(bin, "bigpair", uint64(r.Pick(24, 400)), "")
 	run(bin, "long", uint64(r.Pick(6000, 200000)), "")
 	// the unsafe string/slice conversions once more under checkptr
 	cp := r.GoBuild("vchild-checkptr", "./cmd/vchild", "-gcflags=all=-d=checkptr")
